@@ -299,6 +299,14 @@ def r1_units(chk):
                        f"coordinates are {'multiplied' if st['exp'] > 0 else 'divided'} by a {table} factor -> Angstrom",
                        f"`{short(st['node'], 60)}` {'multiplies' if st['exp'] > 0 else 'divides'} the coordinates by the table value, but the table is "
                        f"{table}: a file in Bohr comes out {'3.57x too long' if st['exp'] > 0 else '3.57x too short'} instead of in Angstrom")
+            # the conversion depends on the declared unit and on nothing else: every condition on the way to it is a test of the unit
+            from ..canon import path_conditions as _pcs
+            from ..util import innermost_stmt as _ist
+
+            other = [t for t in _pcs(f.node, _ist(f.node, st["node"])) if not (names_in(t) & ({"source_units", "DistanceUnit"} | st["unit_names"] | set(_factor_locals(f.node))))]
+            chk.decide(not other, "C08.R1", f"{f.key}:unit-scaling-unconditional" + ("" if k == 0 else f":{k}"), f.where(st["node"]), "the conversion is conditioned on the unit only",
+                       f"the conversion to Angstrom runs only when `{short(other[0], 50) if other else ''}`: in the other case (a mol2 without charges, a plain Structure) the coordinates "
+                       "stay in the declared unit")
             g = _enclosing_if(f.node, st["node"])
             if g is not None:
                 t = g.test
@@ -526,6 +534,11 @@ def _position(expr, target):
     return r
 
 
+def _factor_locals(fn):
+    """locals bound to something computed from a DistanceUnit value (`factor = DistanceUnit[u].value`)"""
+    return [n for n, vals in assignments(fn).items() if any(isinstance(v, ast.AST) and "DistanceUnit" in names_in(v) for v in vals)]
+
+
 def _enclosing_if(fn, node):
     best = None
     for g in walk_no_nested(fn):
@@ -745,6 +758,16 @@ def r2_records(chk):
     # a frame with 0 atoms is a frame: the parse may stop on the end of the input, never on the *value* of the count
     stops = [g for g in walk_no_nested(rx.node) if isinstance(g, (ast.If, ast.While)) and "n_atoms" in names_in(g.test)
              and (isinstance(g, ast.While) or any(isinstance(b, (ast.Break, ast.Return)) for b in g.body))]
+    # a test of the count that *rejects* must let 0 through as well (tabulated for n_atoms = 0)
+    from ..truth import Unknown as _U, evaluate as _ev
+
+    for g in [g for g in walk_no_nested(rx.node) if isinstance(g, ast.If) and "n_atoms" in names_in(g.test) and any(isinstance(b, ast.Raise) for b in g.body)]:
+        try:
+            rejects0 = bool(_ev(g.test, lambda n: 0 if isinstance(n, ast.Name) and n.id == "n_atoms" else NotImplemented))
+        except _U:
+            continue
+        chk.decide(not rejects0, "C08.R2", f"{rx.key}:zero-atom-frame-is-accepted", rx.where(g), f"`{short(g.test, 30)}` accepts a count of 0",
+                   f"`{short(g.test, 30)}` raises for a count of 0: the geometry without atoms that dump_xyz writes (`0`, name) cannot be read back, nor can any file that contains such a frame")
     bad_stop = [g for g in stops if not all(isinstance(c, ast.Compare) and len(c.ops) == 1 and isinstance(c.ops[0], (ast.Is, ast.IsNot)) and norm(c.comparators[0]) == "None"
                                             for c in ast.walk(g.test) if isinstance(c, (ast.Compare,)) or (isinstance(c, ast.Name) and c.id == "n_atoms" and False))
                 or not any(isinstance(c, ast.Compare) for c in ast.walk(g.test))]
